@@ -134,10 +134,16 @@ func whoWritesTokens(x *Ctx) {
 						continue
 					}
 					n++
+					// the writer, or - for a closure or a helper that did not exist on the confirmed tree - the confirmed
+					// functions it belongs to / is called from
 					name := load.ShortName(f)
-					allowed := name == pk+".New" || name == pk+".tokenFromModel"
-					if f.Parent() != nil && strings.HasPrefix(load.ShortName(f.Parent()), pk+".With") && f.Signature.Params().Len() == 1 {
-						allowed = true // Option closure
+					allowed := true
+					for _, o := range x.P.Owners(f) {
+						on := load.ShortName(o)
+						if !(on == pk+".New" || on == pk+".tokenFromModel" || strings.HasPrefix(on, pk+".With") && o.Parent() == nil) {
+							allowed = false
+							name += " (reached from " + on + ")"
+						}
 					}
 					if !allowed {
 						bad += x.P.Pos(in.Pos()) + ": field of " + pk + ".Token written in " + name + "\n"
